@@ -783,3 +783,36 @@ fire("c09-made-first-layer-always-non-strict", ["C09", "C03", "C02"], B + "maske
      "strict")
 silent("c09-benign-made-first-layer-peeled-off", ["C09", "C03", "C02"], B + "masked_autoregressive.py", _MADE_OLD,
        _made_new("len(rest) > 0"))
+_MC_OLD = ("        bijections = self.bijections\n        while any(isinstance(b, Chain) for b in bijections):\n"
+           "            bij = []\n            for b in bijections:\n                if isinstance(b, Chain):\n"
+           "                    bij.extend(b.bijections)\n                else:\n                    bij.append(b)\n"
+           "            bijections = bij\n        return Chain(bijections)\n")
+silent("c08-benign-merge-chains-deque-worklist", ["C08", "C03", "C12"], B + "chain.py", _MC_OLD,
+       "        from collections import deque\n        pending, flat = deque(self.bijections), []\n        while pending:\n"
+       "            b = pending.popleft()\n            if isinstance(b, Chain):\n"
+       "                pending.extendleft(reversed(b.bijections))\n            else:\n                flat.append(b)\n"
+       "        return Chain(flat)\n")
+fire("c08-merge-chains-deque-extendleft-unreversed", ["C08", "C03"], B + "chain.py", _MC_OLD,
+     "        from collections import deque\n        pending, flat = deque(self.bijections), []\n        while pending:\n"
+     "            b = pending.popleft()\n            if isinstance(b, Chain):\n"
+     "                pending.extendleft(b.bijections)\n            else:\n                flat.append(b)\n"
+     "        return Chain(flat)\n", "flatten")
+silent("c08-benign-merge-chains-recursive-generator", ["C08", "C03", "C12"], B + "chain.py", _MC_OLD,
+       "        def members(seq):\n            for b in seq:\n                if isinstance(b, Chain):\n"
+       "                    yield from members(b.bijections)\n                else:\n                    yield b\n\n"
+       "        return Chain(list(members(self.bijections)))\n")
+fire("c12-merge-chains-unwraps-wrapped-members", "C12", B + "chain.py", _MC_OLD,
+     "        from flowjax.wrappers import AbstractUnwrappable, unwrap\n\n        def members(seq):\n            for b in seq:\n"
+     "                if isinstance(b, AbstractUnwrappable):\n                    b = unwrap(b)\n"
+     "                if isinstance(b, Chain):\n                    yield from members(b.bijections)\n"
+     "                else:\n                    yield b\n\n        return Chain(list(members(self.bijections)))\n", "C12.merge-kept")
+_MT_OLD = ("        base_dist = self.base_dist\n        bijections = [self.bijection]\n"
+           "        while isinstance(base_dist, AbstractTransformed):\n            bijections.append(base_dist.bijection)\n"
+           "            base_dist = base_dist.base_dist\n        bijection = Chain(list(reversed(bijections))).merge_chains()\n"
+           "        return Transformed(base_dist, bijection)\n")
+silent("c03-benign-merge-transforms-recursive", ["C03", "C08"], "flowjax/distributions.py", _MT_OLD,
+       "        inner = self.base_dist.merge_transforms()\n"
+       "        return Transformed(inner.base_dist, Chain([inner.bijection, self.bijection]).merge_chains())\n")
+fire("c03-merge-transforms-outermost-first", ["C03", "C08"], "flowjax/distributions.py", _MT_OLD,
+     "        inner = self.base_dist.merge_transforms()\n"
+     "        return Transformed(inner.base_dist, Chain([self.bijection, inner.bijection]).merge_chains())\n", "merge")
